@@ -309,6 +309,8 @@ func c19Steps(c *c19Case) []job.Step {
 		{Kind: job.Diff, Dir1: "a", Dir2: "ctl", Fmt: "txt"},
 		{Kind: job.Diff, Dir1: "ctl", Dir2: "a", Fmt: "md"},
 		{Kind: job.List, Dir: "a", Fmt: "txt", Stop: true, API: "infos"},
+		{Kind: job.List, Dir: "a", Fmt: "md", Stop: true},
+		{Kind: job.Diff, Dir1: "a", Dir2: "ctl", Fmt: "csv", Stop: true},
 	}
 	if !c.admin {
 		st = append(st, job.Step{Kind: job.List, Dir: "a", Fmt: "txt", Exposure: true})
